@@ -227,6 +227,9 @@ func unop(i *interpreter, instr *ssa.UnOp, x value) value {
 		}
 		return v
 	case token.MUL:
+		if sa, ok := x.(*symAddr); ok {
+			return i.indexRead(sa.elems, sa.idx, sa.tidx, sa.telem)
+		}
 		dt := deref(instr.X.Type())
 		v := load(dt, i.checkPtr(x.(*value)))
 		// zero-copy reinterpretations through unsafe.Pointer: *(*string)(unsafe.Pointer(&bytes)) and back
